@@ -3,6 +3,7 @@ package worker
 import (
 	"fmt"
 	"sort"
+	"testing/synctest"
 	"time"
 
 	"google.golang.org/protobuf/types/known/structpb"
@@ -39,15 +40,24 @@ type mutation struct {
 func writeTick() { time.Sleep(time.Microsecond) }
 
 // ticking makes the first application of a mutation advance the clock (a mutation is applied to every replica of a run
-// at one instant, as one write to the API server reaches all of them with one resource version).
-func ticking(m mutation) mutation {
+// at one instant, as one write to the API server reaches all of them with one resource version). It also notices when a
+// push snapshot is created at the very instant of the write: that snapshot may already contain the write without
+// naming it (stores are updated before the change is debounced), the race behind known finding "pushrace"; such runs
+// are tagged in the violation key.
+func (wd *world) ticking(m mutation) mutation {
 	done, f := false, m.apply
 	m.apply = func(inst *wisInstance) error {
 		if !done {
 			done = true
 			writeTick()
 		}
-		return f(inst)
+		before, t0 := inst.fds.Env().PushContext().PushVersion, time.Now()
+		err := f(inst)
+		synctest.Wait()
+		if time.Now().Equal(t0) && inst.fds.Env().PushContext().PushVersion != before {
+			wd.raced = true
+		}
+		return err
 	}
 	return m
 }
@@ -76,6 +86,8 @@ type world struct {
 	// "*", imported by every Sidecar); 2 = visibility is unrestricted, runs are tagged "+alshidden" (known finding:
 	// the provider's service is resolved mesh-wide, a proxy that cannot see it is not re-pushed when it appears).
 	als int
+	// raced: a push snapshot was created at the instant of a write (see ticking)
+	raced bool
 }
 
 const alsHost = "als.example.com"
@@ -535,6 +547,9 @@ func (wd *world) everTags() string {
 	if wd.als == 2 {
 		t += "+alshidden"
 	}
+	if wd.raced {
+		t += "+pushrace"
+	}
 	return t
 }
 
@@ -709,7 +724,7 @@ func (wd *world) startRecipe(tp *engine.Tape) {
 }
 
 func (wd *world) next(tp *engine.Tape) (m mutation) {
-	defer func() { m = ticking(m) }()
+	defer func() { m = wd.ticking(m) }()
 	defer wd.everTags()
 	if len(wd.recipe) == 0 && wd.collide == 0 && tp.Bool(1, 6, "startRecipe") {
 		wd.startRecipe(tp)
@@ -818,7 +833,7 @@ func (wd *world) endpointChange(tp *engine.Tape, hostname string) *mutation {
 		g, name, ns := nc.GroupVersionKind, nc.Name, nc.Namespace
 		_ = g
 		_, _ = name, ns
-		m := ticking(mutation{kind: "ServiceEntry", desc: fmt.Sprintf("update endpoints of %s -> %v", k, nse.Endpoints), apply: func(inst *wisInstance) error {
+		m := wd.ticking(mutation{kind: "ServiceEntry", desc: fmt.Sprintf("update endpoints of %s -> %v", k, nse.Endpoints), apply: func(inst *wisInstance) error {
 			_, err := inst.fds.Store().Update(nc.DeepCopy())
 			return err
 		}})
